@@ -149,6 +149,7 @@ impl<F: Fam> Ctx<F> {
             }
             Op::ParCheck { s, threads, reps } => self.do_par_check((*s & 1) as usize, *threads, *reps),
             Op::SerdeCheck { s } => self.do_serde_check((*s & 1) as usize),
+            Op::Z(z) => self.do_z(z),
             Op::SetPoint { s, k, which } => {
                 let s = (*s & 1) as usize;
                 let kk = self.resolve_set(s, *k);
